@@ -489,9 +489,8 @@ theorem parse_std (C : NewickCodec) (L : NewickLaws C) (labels : List String) (t
     intro t ht
     have htn : t.tipNames.Nodup := (hasDup_false_iff _).1 (htnd t ht)
     refine ⟨(tr_tree_ok_from 1 labels labels t hN hne hN (fun _ => Iff.rfl) (hmem t ht) htn (hnames t ht)).2, ?_⟩
-    have hp : t.tipNames.Perm labels := (List.perm_ext_iff_of_nodup htn hN).2 (hmem t ht)
-    simp only [okTaxa, Bool.and_eq_true, List.all_eq_true, List.contains_iff_mem, beq_iff_eq]
-    exact ⟨fun x hx => (hmem t ht x).1 hx, hp.length_eq⟩
+    simp only [okTaxa, List.all_eq_true, List.contains_iff_mem]
+    exact fun x hx => (hmem t ht x).1 hx
   have hb := backOK_of (tableOf (mapFrom 1 labels) labels []) labels (renameT (mapFrom 1 labels)) ts 1 hper
   have hwW : ∀ w ∈ (enumFrom 1 ts).map (fun it => (it.1, renameT (mapFrom 1 labels) it.2)), L.wf w.2 = true := by
     intro w hw'
